@@ -45,71 +45,163 @@ fn m_index_of(h: &[u16], n: &[u16], from: usize) -> Option<usize> {
     None
 }
 
-// @harness h11c_search_latin1_range tier=quick props=C11,C02
-// @bounds haystack ≤ 3 units, needle ≤ 2 units, all units in 0..=255 so that BOTH representations exist for both strings; from ≤ 4
-// @domain ∀ h∈u8^3, hn≤3, ∀ n∈u8^2, nn≤2, ∀ from≤4; haystack and needle each as Latin-1 and as UTF-16 (4 representation pairs)
-// @claim index_of, starts_with, ends_with give the same answer for all 4 representation pairs and equal StringIndexOf / prefix / suffix on the code units
-#[kani::proof]
-#[kani::unwind(8)]
-fn h11c_search_latin1_range() {
-    let hl: [u8; H] = kani::any();
-    let nl: [u8; M] = kani::any();
-    let hn: usize = kani::any();
-    let nn: usize = kani::any();
-    let from: usize = kani::any();
-    kani::assume(hn <= H && nn <= M && from <= H + 1);
-    let hw = widen(&hl);
-    let nw = widen(&nl);
-    let hs = [JsStr::latin1(&hl[..hn]), JsStr::utf16(&hw[..hn])];
-    let ns = [JsStr::latin1(&nl[..nn]), JsStr::utf16(&nw[..nn])];
-    let want = m_index_of(&hw[..hn], &nw[..nn], from);
-    let want_sw = nn <= hn && m_eq_at(&hw[..hn], 0, &nw[..nn]);
-    let want_ew = nn <= hn && m_eq_at(&hw[..hn], hn - if nn <= hn { nn } else { 0 }, &nw[..nn]);
-    let mut a = 0;
-    while a < 2 {
-        let mut b = 0;
-        while b < 2 {
-            assert!(hs[a].index_of(ns[b], from) == want, "verif: index_of is StringIndexOf on code units for every representation pair");
-            assert!(hs[a].starts_with(ns[b]) == want_sw, "verif: starts_with depends only on code units");
-            assert!(hs[a].ends_with(ns[b]) == want_ew, "verif: ends_with depends only on code units");
-            b += 1;
+macro_rules! search_pair {
+    ($name:ident, $hn:expr, $nn:expr, $from:expr, $hrep:expr, $nrep:expr) => {
+        #[kani::proof]
+        #[kani::unwind(8)]
+        fn $name() {
+            const HN: usize = $hn;
+            const NN: usize = $nn;
+            let hl: [u8; HN] = kani::any();
+            let nl: [u8; NN] = kani::any();
+            let from: usize = $from;
+            let hw = widen(&hl);
+            let nw = widen(&nl);
+            let h = if $hrep == 8 { JsStr::latin1(&hl) } else { JsStr::utf16(&hw) };
+            let n = if $nrep == 8 { JsStr::latin1(&nl) } else { JsStr::utf16(&nw) };
+            let want = m_index_of(&hw, &nw, from);
+            assert!(h.index_of(n, from) == want, "verif: index_of is StringIndexOf on code units for every representation pair");
+            assert!(h.starts_with(n) == (NN <= HN && m_eq_at(&hw, 0, &nw)), "verif: starts_with depends only on code units");
+            assert!(h.ends_with(n) == (NN <= HN && m_eq_at(&hw, HN - if NN <= HN { NN } else { 0 }, &nw)), "verif: ends_with depends only on code units");
+            kani::cover!(want.is_some() || NN > HN, "needle found");
+            kani::cover!(want.is_none() || (NN == 0 && from <= HN), "needle absent");
+            kani::cover!(true, "reaches end");
         }
-        a += 1;
-    }
-    kani::cover!(want == Some(1) && nn == 2, "two-unit needle found at index 1");
-    kani::cover!(want.is_none() && nn > 0 && hn == H, "needle absent");
-    kani::cover!(nn == 0 && from == hn, "empty needle at the end");
-    kani::cover!(hl[0] >= 0x80 && want == Some(0) && nn > 0, "match on a Latin-1-high unit");
-    kani::cover!(true, "reaches end");
+    };
 }
 
-// @harness h11c_search_utf16 tier=quick props=C11,C02
-// @bounds haystack ≤ 3 units, needle ≤ 2 units over the full 16-bit alphabet (UTF-16 representation), Latin-1 needle/haystack mixed in; from ≤ 4
-// @domain ∀ h∈u16^3, hn≤3, ∀ n∈u16^2, nn≤2, ∀ n8∈u8^2, ∀ from≤4
-// @claim index_of/starts_with/ends_with ≡ code-unit model for (utf16 haystack, utf16 needle) and (utf16 haystack, latin1 needle); a Latin-1 haystack never contains a needle with a unit > 255
+// @harness h11c_search_h8_n8_3_2_f0 tier=quick props=C11,C02
+// @bounds haystack exactly 3 units (Latin-1), needle exactly 2 units (Latin-1), units in 0..=255 (so both representations exist), from = 0 (lengths, start index and representation pair are enumerated per harness: symbolic ones make the window/skip/position iterator chain intractable)
+// @domain ∀ h∈u8^3, ∀ n∈u8^2
+// @claim index_of, starts_with, ends_with equal StringIndexOf / prefix / suffix on the code units (the representation pair must not matter)
+search_pair!(h11c_search_h8_n8_3_2_f0, 3, 2, 0, 8, 8);
+// @harness h11c_search_h8_n16_3_2_f0 tier=quick props=C11,C02
+// @bounds haystack exactly 3 units (Latin-1), needle exactly 2 units (UTF-16), units in 0..=255 (so both representations exist), from = 0 (lengths, start index and representation pair are enumerated per harness: symbolic ones make the window/skip/position iterator chain intractable)
+// @domain ∀ h∈u8^3, ∀ n∈u8^2
+// @claim index_of, starts_with, ends_with equal StringIndexOf / prefix / suffix on the code units (the representation pair must not matter)
+search_pair!(h11c_search_h8_n16_3_2_f0, 3, 2, 0, 8, 16);
+// @harness h11c_search_h16_n8_3_2_f0 tier=quick props=C11,C02
+// @bounds haystack exactly 3 units (UTF-16), needle exactly 2 units (Latin-1), units in 0..=255 (so both representations exist), from = 0 (lengths, start index and representation pair are enumerated per harness: symbolic ones make the window/skip/position iterator chain intractable)
+// @domain ∀ h∈u8^3, ∀ n∈u8^2
+// @claim index_of, starts_with, ends_with equal StringIndexOf / prefix / suffix on the code units (the representation pair must not matter)
+search_pair!(h11c_search_h16_n8_3_2_f0, 3, 2, 0, 16, 8);
+// @harness h11c_search_h16_n16_3_2_f0 tier=quick props=C11,C02
+// @bounds haystack exactly 3 units (UTF-16), needle exactly 2 units (UTF-16), units in 0..=255 (so both representations exist), from = 0 (lengths, start index and representation pair are enumerated per harness: symbolic ones make the window/skip/position iterator chain intractable)
+// @domain ∀ h∈u8^3, ∀ n∈u8^2
+// @claim index_of, starts_with, ends_with equal StringIndexOf / prefix / suffix on the code units (the representation pair must not matter)
+search_pair!(h11c_search_h16_n16_3_2_f0, 3, 2, 0, 16, 16);
+// @harness h11c_search_h8_n8_3_2_f1 tier=thorough props=C11,C02
+// @bounds haystack exactly 3 units (Latin-1), needle exactly 2 units (Latin-1), units in 0..=255 (so both representations exist), from = 1 (lengths, start index and representation pair are enumerated per harness: symbolic ones make the window/skip/position iterator chain intractable)
+// @domain ∀ h∈u8^3, ∀ n∈u8^2
+// @claim index_of, starts_with, ends_with equal StringIndexOf / prefix / suffix on the code units (the representation pair must not matter)
+search_pair!(h11c_search_h8_n8_3_2_f1, 3, 2, 1, 8, 8);
+// @harness h11c_search_h8_n16_3_2_f1 tier=quick props=C11,C02
+// @bounds haystack exactly 3 units (Latin-1), needle exactly 2 units (UTF-16), units in 0..=255 (so both representations exist), from = 1 (lengths, start index and representation pair are enumerated per harness: symbolic ones make the window/skip/position iterator chain intractable)
+// @domain ∀ h∈u8^3, ∀ n∈u8^2
+// @claim index_of, starts_with, ends_with equal StringIndexOf / prefix / suffix on the code units (the representation pair must not matter)
+search_pair!(h11c_search_h8_n16_3_2_f1, 3, 2, 1, 8, 16);
+// @harness h11c_search_h16_n8_3_2_f1 tier=quick props=C11,C02
+// @bounds haystack exactly 3 units (UTF-16), needle exactly 2 units (Latin-1), units in 0..=255 (so both representations exist), from = 1 (lengths, start index and representation pair are enumerated per harness: symbolic ones make the window/skip/position iterator chain intractable)
+// @domain ∀ h∈u8^3, ∀ n∈u8^2
+// @claim index_of, starts_with, ends_with equal StringIndexOf / prefix / suffix on the code units (the representation pair must not matter)
+search_pair!(h11c_search_h16_n8_3_2_f1, 3, 2, 1, 16, 8);
+// @harness h11c_search_h16_n16_3_2_f1 tier=thorough props=C11,C02
+// @bounds haystack exactly 3 units (UTF-16), needle exactly 2 units (UTF-16), units in 0..=255 (so both representations exist), from = 1 (lengths, start index and representation pair are enumerated per harness: symbolic ones make the window/skip/position iterator chain intractable)
+// @domain ∀ h∈u8^3, ∀ n∈u8^2
+// @claim index_of, starts_with, ends_with equal StringIndexOf / prefix / suffix on the code units (the representation pair must not matter)
+search_pair!(h11c_search_h16_n16_3_2_f1, 3, 2, 1, 16, 16);
+// @harness h11c_search_h8_n8_3_1_f2 tier=thorough props=C11,C02
+// @bounds haystack exactly 3 units (Latin-1), needle exactly 1 units (Latin-1), units in 0..=255 (so both representations exist), from = 2 (lengths, start index and representation pair are enumerated per harness: symbolic ones make the window/skip/position iterator chain intractable)
+// @domain ∀ h∈u8^3, ∀ n∈u8^1
+// @claim index_of, starts_with, ends_with equal StringIndexOf / prefix / suffix on the code units (the representation pair must not matter)
+search_pair!(h11c_search_h8_n8_3_1_f2, 3, 1, 2, 8, 8);
+// @harness h11c_search_h8_n16_3_1_f2 tier=thorough props=C11,C02
+// @bounds haystack exactly 3 units (Latin-1), needle exactly 1 units (UTF-16), units in 0..=255 (so both representations exist), from = 2 (lengths, start index and representation pair are enumerated per harness: symbolic ones make the window/skip/position iterator chain intractable)
+// @domain ∀ h∈u8^3, ∀ n∈u8^1
+// @claim index_of, starts_with, ends_with equal StringIndexOf / prefix / suffix on the code units (the representation pair must not matter)
+search_pair!(h11c_search_h8_n16_3_1_f2, 3, 1, 2, 8, 16);
+// @harness h11c_search_h16_n8_3_1_f2 tier=thorough props=C11,C02
+// @bounds haystack exactly 3 units (UTF-16), needle exactly 1 units (Latin-1), units in 0..=255 (so both representations exist), from = 2 (lengths, start index and representation pair are enumerated per harness: symbolic ones make the window/skip/position iterator chain intractable)
+// @domain ∀ h∈u8^3, ∀ n∈u8^1
+// @claim index_of, starts_with, ends_with equal StringIndexOf / prefix / suffix on the code units (the representation pair must not matter)
+search_pair!(h11c_search_h16_n8_3_1_f2, 3, 1, 2, 16, 8);
+// @harness h11c_search_h16_n16_3_1_f2 tier=thorough props=C11,C02
+// @bounds haystack exactly 3 units (UTF-16), needle exactly 1 units (UTF-16), units in 0..=255 (so both representations exist), from = 2 (lengths, start index and representation pair are enumerated per harness: symbolic ones make the window/skip/position iterator chain intractable)
+// @domain ∀ h∈u8^3, ∀ n∈u8^1
+// @claim index_of, starts_with, ends_with equal StringIndexOf / prefix / suffix on the code units (the representation pair must not matter)
+search_pair!(h11c_search_h16_n16_3_1_f2, 3, 1, 2, 16, 16);
+// @harness h11c_search_h8_n8_2_0_f2 tier=quick props=C11,C02
+// @bounds haystack exactly 2 units (Latin-1), needle exactly 0 units (Latin-1), units in 0..=255 (so both representations exist), from = 2 (lengths, start index and representation pair are enumerated per harness: symbolic ones make the window/skip/position iterator chain intractable)
+// @domain ∀ h∈u8^2, ∀ n∈u8^0
+// @claim index_of, starts_with, ends_with equal StringIndexOf / prefix / suffix on the code units (the representation pair must not matter)
+search_pair!(h11c_search_h8_n8_2_0_f2, 2, 0, 2, 8, 8);
+// @harness h11c_search_h8_n16_2_0_f2 tier=quick props=C11,C02
+// @bounds haystack exactly 2 units (Latin-1), needle exactly 0 units (UTF-16), units in 0..=255 (so both representations exist), from = 2 (lengths, start index and representation pair are enumerated per harness: symbolic ones make the window/skip/position iterator chain intractable)
+// @domain ∀ h∈u8^2, ∀ n∈u8^0
+// @claim index_of, starts_with, ends_with equal StringIndexOf / prefix / suffix on the code units (the representation pair must not matter)
+search_pair!(h11c_search_h8_n16_2_0_f2, 2, 0, 2, 8, 16);
+// @harness h11c_search_h16_n8_2_0_f2 tier=quick props=C11,C02
+// @bounds haystack exactly 2 units (UTF-16), needle exactly 0 units (Latin-1), units in 0..=255 (so both representations exist), from = 2 (lengths, start index and representation pair are enumerated per harness: symbolic ones make the window/skip/position iterator chain intractable)
+// @domain ∀ h∈u8^2, ∀ n∈u8^0
+// @claim index_of, starts_with, ends_with equal StringIndexOf / prefix / suffix on the code units (the representation pair must not matter)
+search_pair!(h11c_search_h16_n8_2_0_f2, 2, 0, 2, 16, 8);
+// @harness h11c_search_h16_n16_2_0_f2 tier=quick props=C11,C02
+// @bounds haystack exactly 2 units (UTF-16), needle exactly 0 units (UTF-16), units in 0..=255 (so both representations exist), from = 2 (lengths, start index and representation pair are enumerated per harness: symbolic ones make the window/skip/position iterator chain intractable)
+// @domain ∀ h∈u8^2, ∀ n∈u8^0
+// @claim index_of, starts_with, ends_with equal StringIndexOf / prefix / suffix on the code units (the representation pair must not matter)
+search_pair!(h11c_search_h16_n16_2_0_f2, 2, 0, 2, 16, 16);
+// @harness h11c_search_h8_n8_1_2_f0 tier=quick props=C11,C02
+// @bounds haystack exactly 1 units (Latin-1), needle exactly 2 units (Latin-1), units in 0..=255 (so both representations exist), from = 0 (lengths, start index and representation pair are enumerated per harness: symbolic ones make the window/skip/position iterator chain intractable)
+// @domain ∀ h∈u8^1, ∀ n∈u8^2
+// @claim index_of, starts_with, ends_with equal StringIndexOf / prefix / suffix on the code units (the representation pair must not matter)
+search_pair!(h11c_search_h8_n8_1_2_f0, 1, 2, 0, 8, 8);
+// @harness h11c_search_h8_n16_1_2_f0 tier=quick props=C11,C02
+// @bounds haystack exactly 1 units (Latin-1), needle exactly 2 units (UTF-16), units in 0..=255 (so both representations exist), from = 0 (lengths, start index and representation pair are enumerated per harness: symbolic ones make the window/skip/position iterator chain intractable)
+// @domain ∀ h∈u8^1, ∀ n∈u8^2
+// @claim index_of, starts_with, ends_with equal StringIndexOf / prefix / suffix on the code units (the representation pair must not matter)
+search_pair!(h11c_search_h8_n16_1_2_f0, 1, 2, 0, 8, 16);
+// @harness h11c_search_h16_n8_1_2_f0 tier=quick props=C11,C02
+// @bounds haystack exactly 1 units (UTF-16), needle exactly 2 units (Latin-1), units in 0..=255 (so both representations exist), from = 0 (lengths, start index and representation pair are enumerated per harness: symbolic ones make the window/skip/position iterator chain intractable)
+// @domain ∀ h∈u8^1, ∀ n∈u8^2
+// @claim index_of, starts_with, ends_with equal StringIndexOf / prefix / suffix on the code units (the representation pair must not matter)
+search_pair!(h11c_search_h16_n8_1_2_f0, 1, 2, 0, 16, 8);
+// @harness h11c_search_h16_n16_1_2_f0 tier=quick props=C11,C02
+// @bounds haystack exactly 1 units (UTF-16), needle exactly 2 units (UTF-16), units in 0..=255 (so both representations exist), from = 0 (lengths, start index and representation pair are enumerated per harness: symbolic ones make the window/skip/position iterator chain intractable)
+// @domain ∀ h∈u8^1, ∀ n∈u8^2
+// @claim index_of, starts_with, ends_with equal StringIndexOf / prefix / suffix on the code units (the representation pair must not matter)
+search_pair!(h11c_search_h16_n16_1_2_f0, 1, 2, 0, 16, 16);
+
+// @harness h11c_search_utf16 tier=thorough props=C11,C02
+// @bounds haystack exactly 3 units, needle exactly 2 units over the full 16-bit alphabet (UTF-16 representation), from = 0
+// @domain ∀ h∈u16^3, ∀ n∈u16^2
+// @claim index_of/starts_with/ends_with ≡ code-unit model for utf16 haystack and utf16 needle with arbitrary units (surrogates, > 255)
 #[kani::proof]
 #[kani::unwind(8)]
 fn h11c_search_utf16() {
     let hu: [u16; H] = kani::any();
     let nu: [u16; M] = kani::any();
-    let n8: [u8; M] = kani::any();
-    let hn: usize = kani::any();
-    let nn: usize = kani::any();
-    let from: usize = kani::any();
-    kani::assume(hn <= H && nn <= M && from <= H + 1);
-    let h = JsStr::utf16(&hu[..hn]);
-    let n = JsStr::utf16(&nu[..nn]);
-    assert!(h.index_of(n, from) == m_index_of(&hu[..hn], &nu[..nn], from), "verif: utf16/utf16 index_of");
-    let n8w = widen(&n8);
-    assert!(h.index_of(JsStr::latin1(&n8[..nn]), from) == m_index_of(&hu[..hn], &n8w[..nn], from), "verif: utf16/latin1 index_of");
-    assert!(h.starts_with(n) == (nn <= hn && m_eq_at(&hu[..hn], 0, &nu[..nn])), "verif: utf16/utf16 starts_with");
-    assert!(h.ends_with(JsStr::latin1(&n8[..nn])) == (nn <= hn && m_eq_at(&hu[..hn], hn - if nn <= hn { nn } else { 0 }, &n8w[..nn])), "verif: utf16/latin1 ends_with");
-    // latin1 haystack vs a needle containing a unit above 255
+    let h = JsStr::utf16(&hu);
+    let n = JsStr::utf16(&nu);
+    assert!(h.index_of(n, 0) == m_index_of(&hu, &nu, 0), "verif: utf16/utf16 index_of from 0");
+    assert!(h.starts_with(n) == m_eq_at(&hu, 0, &nu), "verif: utf16/utf16 starts_with");
+    assert!(h.ends_with(n) == m_eq_at(&hu, H - M, &nu), "verif: utf16/utf16 ends_with");
+    kani::cover!(nu[0] >= 0xD800 && nu[0] < 0xDC00 && h.index_of(n, 0).is_some(), "surrogate-led needle found");
+    kani::cover!(true, "reaches end");
+}
+
+// @harness h11c_search_l1_hay_wide_needle tier=quick props=C11,C02
+// @bounds Latin-1 haystack exactly 3 units, UTF-16 needle exactly 1 unit over the full 16-bit alphabet, from = 0
+// @domain ∀ h∈u8^3, ∀ n∈u16^1
+// @claim a Latin-1 haystack contains a UTF-16-backed needle exactly when the code units match (never for a unit above 255, always for a matching unit ≤ 255)
+#[kani::proof]
+#[kani::unwind(8)]
+fn h11c_search_l1_hay_wide_needle() {
     let h8: [u8; H] = kani::any();
+    let nu: [u16; 1] = kani::any();
     let h8w = widen(&h8);
-    assert!(JsStr::latin1(&h8[..hn]).index_of(n, from) == m_index_of(&h8w[..hn], &nu[..nn], from), "verif: latin1/utf16 index_of");
-    kani::cover!(nn == 2 && nu[0] >= 0xD800 && nu[0] < 0xDC00 && h.index_of(n, from).is_some(), "surrogate pair needle found");
-    kani::cover!(nn > 0 && nu[0] > 255 && hn == H, "needle with a unit above 255 against a Latin-1 haystack");
+    assert!(JsStr::latin1(&h8).index_of(JsStr::utf16(&nu), 0) == m_index_of(&h8w, &nu, 0), "verif: latin1/utf16 index_of");
+    kani::cover!(nu[0] > 255, "needle unit above 255");
+    kani::cover!(JsStr::latin1(&h8).index_of(JsStr::utf16(&nu), 0) == Some(2), "UTF-16-backed needle found at the end of a Latin-1 haystack");
     kani::cover!(true, "reaches end");
 }
 
